@@ -35,7 +35,9 @@ def run(check: Check) -> None:
     wiring.p6_activated_membership(check)
     wiring.p7_aggregated_membership(check)
     wiring.p8_defuzzify_args(check)
-    wiring.p9_antecedent(check)
+    from .antecedent_sem import antecedent_semantics
+
+    antecedent_semantics(check, rule="P9")  # Antecedent.activation_degree interpreted on model expression trees with symbolic leaves
     wiring.p10_activation_degree_lookup(check)
     from .common import memoisation_rule
 
